@@ -88,9 +88,7 @@ Proof.
   unfold torn_id. rewrite firstn_app, be64_length.
   destruct (Nat.le_gt_cases 8 m) as [H|H].
   - rewrite !firstn_all2 by (rewrite be64_length; lia).
-    rewrite <- be64_length with (x := id) at 1. rewrite take0_app_exact.
-    rewrite <- (app_nil_r (be64 id)) at 2. rewrite <- be64_length with (x := id) at 2.
-    now rewrite take0_app_exact.
+    cbn [be64 map app take0]. reflexivity.
   - replace (m - 8)%nat with 0%nat by lia. cbn [firstn]. now rewrite app_nil_r.
 Qed.
 
